@@ -63,7 +63,10 @@ pub fn on_server_message(sim: &mut Sim, c: usize, ch: usize, bytes: &[u8], id: u
         }
         // Stale-reference taint (known finding F17): despawns first, then re-sent components.
         let mut taints: Vec<((u64, Kind), u32)> = vec![];
-        for d in &msg.despawns {
+        // A pre-spawn mapping gives the target a new client identity as well: references sent before
+        // it keep pointing at the placeholder the client had reserved (same family as F17).
+        let remapped: Vec<u64> = msg.mappings.iter().map(|(s, _)| *s).collect();
+        for d in msg.despawns.iter().chain(remapped.iter()) {
             for s in sim.slots.iter().flatten() {
                 let comps = read_comps(sim.server.world(), *s);
                 for k in [Kind::Ref, Kind::Link] {
